@@ -7,6 +7,8 @@
 
 //! Helper structure for working with mmap'ed memory regions on Xen.
 
+#[cfg(vm_memory_verif)]
+use crate::verif::sys as libc;
 use bitflags::bitflags;
 use libc::{c_int, c_void, MAP_SHARED, _SC_PAGESIZE};
 use std::{io, mem::size_of, os::raw::c_ulong, os::unix::io::AsRawFd, ptr::null_mut, result};
